@@ -534,18 +534,51 @@ BYTES_PRESERVING = mir.VALUE_PRESERVING + (
 
 
 def decoders(lib):
-    """crate functions (one non-Element parameter) -> Result<String, _> built on the strict String::from_utf8 (directly
-    or through a private helper); the C08 rules check their bodies, the mechanism rules treat a call as `the text of
-    the argument`"""
+    """crate functions (one non-Element parameter) -> Result<String, _> that decode *the whole argument* with the strict
+    String::from_utf8: every result is from_utf8(bytes of the argument) with a mapped error, or the result of another
+    decoder applied to the argument as it is (value/byte-preserving conversions only - no slicing, trimming, sampling).
+    The C08 rules check their error handling; the mechanism rules treat a call as `the text of the argument`"""
     if getattr(lib, "_decoders", None) is None:
-        from .common import look_through_private
-        out = set()
+        cands = {}
         for p, f in lib.fns.items():
             o = f.get("output") or {}
             if o.get("adt") == "std::result::Result" and o.get("s", "").startswith("std::result::Result<std::string::String,") and \
                     len(f.get("inputs", [])) == 1 and f["inputs"][0].get("adt") != "element::Element" and p in lib.bodies:
-                b = look_through_private(lib, lib.bodies[p])
-                if any(cname(c.node) in ("std::string::String::from_utf8", "core::str::from_utf8", "std::str::from_utf8") for c in b.calls()):
+                cands[p] = lib.bodies[p]
+        out = set()
+        for _ in range(3):
+            for p, b in cands.items():
+                if p in out:
+                    continue
+                res = []
+                for s_ in b.sites():
+                    n = s_.node
+                    if s_.si is not None and n["k"] == "assign" and n["place"]["l"] == 0 and not n["place"]["p"] and n["rv"]["k"] == "use":
+                        t = strip(term_of(b, n["rv"]["op"]))
+                        if t[0] == "local":
+                            res += [strip(a) for a in (mir._alternatives(b, t[1], 0, True, frozenset()) or [t])]
+                        else:
+                            res.append(t)
+                    elif s_.si is None and n["k"] == "call" and n["dest"]["l"] == 0 and not n["dest"]["p"]:
+                        res.append(("call", cname(n), [term_of(b, a) for a in n["args"]], s_))
+                ok = bool(res)
+                for t in res:
+                    x = strip(t, mir.VALUE_PRESERVING)
+                    while x[0] == "call" and x[1] in mir.OK_PRESERVING and x[2]:
+                        x = strip(x[2][0], mir.VALUE_PRESERVING)
+                    if x[0] == "call" and x[1] == "std::ops::FromResidual::from_residual":
+                        continue        # the error path of an inner `?`
+                    if x[0] == "agg" and x[2] == "Ok" and x[3]:
+                        # Ok(decode(arg)?) : look at the payload
+                        y = strip(mir.canon_try(strip(list(x[3].values())[0], mir.VALUE_PRESERVING)), mir.VALUE_PRESERVING)
+                        if y[0] == "proj" and tuple(e[:2] for e in y[2] if e != "*") == (("dc", "Ok"), ("f", "std::result::Result")):
+                            x = strip(y[1], mir.VALUE_PRESERVING)
+                            while x[0] == "call" and x[1] in mir.OK_PRESERVING and x[2]:
+                                x = strip(x[2][0], mir.VALUE_PRESERVING)
+                    whole = x[0] == "call" and x[2] and strip(x[2][0], BYTES_PRESERVING) == ("arg", 1)
+                    if not (whole and (x[1] in ("std::string::String::from_utf8",) or x[1] in out or x[3].node["callee"].get("path") in out)):
+                        ok = False
+                if ok:
                     out.add(p)
         lib._decoders = out
     return lib._decoders
